@@ -17,41 +17,36 @@ theorem truncate_identity (p : Proto) (h : Bytes) (hi : p.mhType = identityCode)
 theorem truncate_whole (p : Proto) (h : Bytes) (hl : p.mhLength = -1) : truncate p h = some h := by
   simp [truncate, hl]
 
-/-- a proper `MhLength` on a non-identity hash: the digest is exactly the first `MhLength` bytes -/
+/-- a proper `MhLength` on a non-identity hash that the hash can supply: the digest is exactly the first `MhLength` bytes -/
 theorem truncate_some_cut {p : Proto} {h d : Bytes} (ht : truncate p h = some d)
-    (hi : p.mhType ≠ identityCode) (hl : p.mhLength ≠ -1) :
-    d = h.take p.mhLength.toNat ∧ (d.length : Int) = p.mhLength ∧ 0 ≤ p.mhLength ∧ p.mhLength ≤ (h.length : Int) := by
+    (hi : p.mhType ≠ identityCode) (hl : p.mhLength ≠ -1)
+    (hfit : 0 ≤ p.mhLength ∧ p.mhLength ≤ (h.length : Int)) :
+    d = h.take p.mhLength.toNat ∧ (d.length : Int) = p.mhLength := by
   unfold truncate at ht
   have c1 : ¬ (p.mhType = identityCode ∨ p.mhLength = -1) := fun x => x.elim hi hl
-  simp only [c1, if_false] at ht
-  split at ht
-  · simp at ht
-  · rename_i c3
-    simp only [Option.some.injEq] at ht
-    subst ht
-    have hge : 0 ≤ p.mhLength := by omega
-    refine ⟨rfl, ?_, hge, by omega⟩
-    rw [List.length_take]
-    omega
+  have c2 : ¬ (p.mhLength < 0 ∨ (h.length : Int) < p.mhLength) := by omega
+  simp only [c1, c2, if_false, Option.some.injEq] at ht
+  subst ht
+  refine ⟨rfl, ?_⟩
+  rw [List.length_take]
+  omega
 
-theorem truncate_none_iff (p : Proto) (h : Bytes) :
-    truncate p h = none ↔
-      p.mhType ≠ identityCode ∧ p.mhLength ≠ -1 ∧ (p.mhLength < 0 ∨ (h.length : Int) < p.mhLength) := by
+/-- a length the hash cannot supply (or a negative one) leaves the whole hash: no refusal, no panic -/
+theorem truncate_unfit {p : Proto} {h : Bytes} (hi : p.mhType ≠ identityCode) (hl : p.mhLength ≠ -1)
+    (hun : p.mhLength < 0 ∨ (h.length : Int) < p.mhLength) : truncate p h = some h := by
   unfold truncate
-  by_cases c1 : p.mhType = identityCode ∨ p.mhLength = -1
-  · simp only [c1, if_true]
-    constructor
-    · intro x; cases x
-    · rintro ⟨a, b, _⟩; exact (c1.elim a b).elim
-  · have a : p.mhType ≠ identityCode := fun x => c1 (Or.inl x)
-    have b : p.mhLength ≠ -1 := fun x => c1 (Or.inr x)
-    by_cases c2 : p.mhLength < 0 ∨ (h.length : Int) < p.mhLength
-    · rw [if_neg c1, if_pos c2]
-      exact ⟨fun _ => ⟨a, b, c2⟩, fun _ => rfl⟩
-    · rw [if_neg c1, if_neg c2]
-      constructor
-      · intro x; cases x
-      · rintro ⟨_, _, x⟩; exact (c2 x).elim
+  have c1 : ¬ (p.mhType = identityCode ∨ p.mhLength = -1) := fun x => x.elim hi hl
+  simp only [c1, hun, if_false, if_true]
+
+/-- `truncate` never refuses (since the repair of the slice-bounds panic) -/
+theorem truncate_ne_none (p : Proto) (h : Bytes) : truncate p h ≠ none := by
+  unfold truncate
+  split
+  · simp
+  · split <;> simp
+
+theorem truncate_none_iff (p : Proto) (h : Bytes) : truncate p h = none ↔ False :=
+  ⟨fun x => truncate_ne_none p h x, False.elim⟩
 
 /-- whatever the prototype, the digest is a prefix of the hash -/
 theorem truncate_prefix {p : Proto} {h d : Bytes} (ht : truncate p h = some d) : d <+: h := by
@@ -59,7 +54,7 @@ theorem truncate_prefix {p : Proto} {h d : Bytes} (ht : truncate p h = some d) :
   split at ht
   · simp only [Option.some.injEq] at ht; subst ht; exact List.prefix_refl _
   · split at ht
-    · simp at ht
+    · simp only [Option.some.injEq] at ht; subst ht; exact List.prefix_refl _
     · simp only [Option.some.injEq] at ht; subst ht; exact List.take_prefix _ _
 
 theorem mkLink_some {p : Proto} {d : Bytes} {l : Lnk} (h : mkLink p d = some l) :
